@@ -539,9 +539,23 @@ def auto_patterns(vs, body):
     return []
 
 
+_MARK = z3.Function('mark', PyV, z3.BoolSort())
+
+
+def mark(t):
+    """An uninterpreted, unconstrained predicate.  Used as an extra antecedent `mark(t)` in goals of the form
+    ∀j. P(j) → ∃k. Q(t(j), k): after negation and skolemisation the term t(j0) is then a ground term of the e-graph
+    (z3 does not internalise ground terms that only occur under a quantifier), so ∀k ¬Q can be instantiated by
+    matching.  The goal must hold for every interpretation of `mark`, in particular `true`: nothing is weakened."""
+    return _MARK(t)
+
+
 def FA(vs, body, patterns=None):
     """ForAll with triggers.  Inadmissible triggers (boolean structure, arithmetic relations) are dropped; without
     usable triggers small array-read / function-application triggers are chosen from the body."""
+    import sys
+    fr = sys._getframe(1)
+    qid = f"{fr.f_code.co_filename.rsplit('/', 1)[-1][:-3]}_L{fr.f_lineno}"
     pats = []
     for p in patterns or ():
         try:
@@ -560,7 +574,86 @@ def FA(vs, body, patterns=None):
             pats = []
     if pats:
         try:
-            return z3.ForAll(vs, body, patterns=pats)
+            return z3.ForAll(vs, body, patterns=pats, qid=qid)
         except z3.Z3Exception:
             pass
-    return z3.ForAll(vs, body)
+    return z3.ForAll(vs, body, qid=qid)
+
+
+# --------------------------------------------------------------------------------------
+# relevant extensionality
+# --------------------------------------------------------------------------------------
+class ExtAxioms:
+    """z3's array decision procedure instantiates extensionality for every pair of shared array terms; with the dozens of
+    set/map arrays of a path this floods the e-graph with `array-ext` witness terms that feed every node-indexed trigger
+    (measured: a satisfiable path condition does not saturate in 120 s with it, 0.15 s without).  The solvers therefore
+    run with `array.extensional=false` and get, for every *equality atom between ground array terms* that occurs
+    anywhere in the asserted formulas, the one extensionality instance it can need:
+        a = b  ∨  a[w_ab] ≠ b[w_ab]          (w_ab fresh)
+    Dropping axioms can only lose proofs, never make `unsat` wrong.  Array terms occur in the encoding only in selects,
+    stores and such equality atoms (no uninterpreted function or datatype field holds an array), so an array
+    disequality can only arise from one of these atoms: with the instances above nothing is lost either, except for
+    equality atoms whose arrays mention a bound variable (left to the full-extensionality fallback stage)."""
+
+    def __init__(self):
+        self.seen = set()
+        self.pairs = set()
+        self._ground = {}
+
+    def ground(self, e):
+        i = e.get_id()
+        r = self._ground.get(i)
+        if r is None:
+            if z3.is_var(e):
+                r = False
+            elif z3.is_quantifier(e):
+                r = False
+            else:
+                r = all(self.ground(c) for c in e.children())
+            self._ground[i] = r
+        return r
+
+    def axioms_for(self, formulas):
+        """axioms for the equality atoms of the formulas not seen by this instance before; the per-formula scan is cached
+        process-wide (path conditions share almost all their conjuncts across the obligations of a function)"""
+        out = []
+        for f in formulas:
+            if not isinstance(f, z3.ExprRef):
+                continue
+            hit = _EXT_CACHE.get(f.get_id())
+            if hit is None or not hit[0].eq(f):
+                one = ExtAxioms.__new__(ExtAxioms)
+                one.seen, one.pairs, one._ground = set(), set(), self._ground
+                found = []
+                one.collect_pairs(f, found)
+                hit = (f, found)
+                _EXT_CACHE[f.get_id()] = hit
+            for key, a, b in hit[1]:
+                if key not in self.pairs:
+                    self.pairs.add(key)
+                    w = z3.FreshConst(a.sort().domain(), 'ext')
+                    out.append(z3.Or(a == b, z3.Select(a, w) != z3.Select(b, w)))
+        return out
+
+    def collect_pairs(self, e, found):
+        stack = [e]
+        while stack:
+            e = stack.pop()
+            i = e.get_id()
+            if i in self.seen:
+                continue
+            self.seen.add(i)
+            if z3.is_quantifier(e):
+                stack.append(e.body())
+                continue
+            if not z3.is_app(e):
+                continue
+            if e.num_args() == 2 and (z3.is_eq(e) or z3.is_distinct(e)) and z3.is_array_sort(e.arg(0)):
+                a, b = e.arg(0), e.arg(1)
+                key = tuple(sorted((a.get_id(), b.get_id())))
+                if key[0] != key[1] and self.ground(a) and self.ground(b):
+                    found.append((key, a, b))
+            stack.extend(e.children())
+
+
+_EXT_CACHE = {}
